@@ -249,13 +249,14 @@ type RNode struct {
 }
 
 type Opts struct {
-	N          int
-	Weights    []uint64
-	TimerBase  time.Duration // 0: manual election scheduler
-	Drop, Dup  int
-	MaxDelayUs int
-	LogDelays  map[string]int
-	NoRouter   bool // messages are recorded only (single-node scenarios)
+	N               int
+	Weights         []uint64
+	TimerBase       time.Duration // 0: manual election scheduler
+	Drop, Dup       int
+	MaxDelayUs      int
+	LogDelays       map[string]int
+	NoRouter        bool // messages are recorded only (single-node scenarios)
+	RotateCommittee bool // the committee's order depends on the height
 }
 
 type Net struct {
@@ -311,7 +312,23 @@ func (net *Net) newNode(id string) *RNode {
 	n := &RNode{Id: id, net: net}
 	net.byId[id] = n
 	n.BU = &spi.BlockUtils{Node: id, Log: net.Log}
-	n.Mem = &spi.Membership{Me: id, Log: net.Log, Committee: func(h uint64) []interfaces.CommitteeMember { return net.Committee }}
+	n.Mem = &spi.Membership{Me: id, Log: net.Log, Committee: func(h uint64) []interfaces.CommitteeMember {
+		if !net.opts.RotateCommittee {
+			return net.Committee
+		}
+		// the ordered committee changes with the height: rotated by h, and every third height reversed
+		k := len(net.Committee)
+		out := make([]interfaces.CommitteeMember, k)
+		for i := range out {
+			out[i] = net.Committee[(i+int(h%uint64(k)))%k]
+		}
+		if h%3 == 0 {
+			for a, b := 0, k-1; a < b; a, b = a+1, b-1 {
+				out[a], out[b] = out[b], out[a]
+			}
+		}
+		return out
+	}}
 	n.Store = &spi.RecStorage{Storage: storage.NewInMemoryStorage(), Node: id, Log: net.Log}
 	n.Lg = &rtLogger{node: id, net: net, pings: map[uint64]chan struct{}{}, delays: net.opts.LogDelays}
 	comm := &spi.Comm{Node: id, Log: net.Log, OnSend: func(to []string, m *interfaces.ConsensusRawMessage) { net.route(n, to, m) }}
